@@ -26,8 +26,14 @@ struct World {
 	// fault injector: the k-th "opportunity" (allocation, element construction, element assignment) throws
 	long fault_at = -1, fault_count = 0; int fault_kind_hit = -1;
 	bool count_faults = true;
+	// allocator address policy (an environment answer the harness owns): false = every allocation gets an address never seen before in this history (blocks are kept
+	// by the sanitizer's quarantine); true = a released block is handed out again, most recently released first, to the next request of the same byte size
+	bool recycle = false;
+	std::vector<std::pair<std::size_t, void*>> free_order;   // released blocks, oldest first
+	void drop_freelist() { for(auto& kv : free_order) { ::operator delete(kv.second); } free_order.clear(); }
+	void* reuse(std::size_t bytes) { for(std::size_t i = free_order.size(); i-- > 0;) { if(free_order[i].first == bytes) { void* p = free_order[i].second; free_order.erase(free_order.begin() + static_cast<std::ptrdiff_t>(i)); return p; } } return nullptr; }
 	void err(std::string s) { if(errs.size() < 20) { errs.push_back(std::move(s)); } }
-	void reset() { blocks.clear(); alive.clear(); nalloc = ndealloc = ncopy = nmove = nassign = nmassign = ndefault = nvalue = ndtor = 0; errs.clear(); fault_at = -1; fault_count = 0; fault_kind_hit = -1; }
+	void reset() { blocks.clear(); alive.clear(); nalloc = ndealloc = ncopy = nmove = nassign = nmassign = ndefault = nvalue = ndtor = 0; errs.clear(); fault_at = -1; fault_count = 0; fault_kind_hit = -1; drop_freelist(); }
 	// kind: 0 alloc, 1 elem-ctor, 2 elem-assign
 	void opportunity(int kind) {
 		if(!count_faults) { return; }
@@ -114,7 +120,9 @@ struct LA {
 		W.opportunity(0);
 		++W.nalloc;
 		std::size_t bytes = n*sizeof(T);
-		void* p = ::operator new(bytes ? bytes : 1);
+		void* p = nullptr;
+		if(W.recycle) { p = W.reuse(bytes); }
+		if(p == nullptr) { p = ::operator new(bytes ? bytes : 1); }
 		std::memset(p, PREFILL_BYTE, bytes);
 		W.blocks[p] = Block{n, id, bytes};
 		return wrap(static_cast<T*>(p), n);
@@ -127,8 +135,9 @@ struct LA {
 		if(it == W.blocks.end()) { W.err("deallocate-unknown-or-freed-block"); return; }
 		if(it->second.n != n) { W.err("deallocate-size-mismatch(requested " + std::to_string(it->second.n) + ", returned " + std::to_string(n) + ")"); }
 		if(it->second.id != id) { W.err("deallocate-through-unequal-allocator(block of #" + std::to_string(it->second.id) + " released by #" + std::to_string(id) + ")"); }
+		std::size_t const bytes = it->second.bytes;
 		W.blocks.erase(it);
-		::operator delete(p);
+		if(W.recycle) { std::memset(p, 0xDD, bytes); W.free_order.emplace_back(bytes, p); } else { ::operator delete(p); }
 	}
 	LA select_on_container_copy_construction() const { return Tr::soccc_fresh ? LA(id + 100) : *this; }
 	friend bool operator==(LA const& a, LA const& b) { return a.id == b.id; }
